@@ -187,6 +187,8 @@ func subC05(out string, seed uint64, tier string, arg string) {
 		nobj, perObj = len(objs), 6
 	}
 	cfgAlt, _ := lint.NewConfigFromString("[e_rsa_fermat_factorization]\nRounds = 3\n[e_subj_contains_html_entities]\n")
+	// targeted histories first: caches keyed by TLD / key material must still be cold
+	targetedHistories(rep, rng, g, tier)
 	var history []*Obj
 	for i := 0; i < nobj && i < len(objs); i++ {
 		o := objs[(i*11+int(seed))%len(objs)]
@@ -247,8 +249,6 @@ func subC05(out string, seed uint64, tier string, arg string) {
 		}
 		rep.sample(map[string]interface{}{"object": o.Name, "kind": o.Kind})
 	}
-	// targeted histories: same TLD / same key material seen first under different dates or configurations
-	targetedHistories(rep, rng, g, tier)
 	rep.write(filepath.Join(out, "report.json"))
 }
 
@@ -267,24 +267,21 @@ func targetedHistories(rep *Report, rng *RNG, g lint.Registry, tier string) {
 		return parseObj("cert", fmt.Sprintf("kit-%s-%d", tld, nb.Year()), der)
 	}
 	for _, tld := range tlds {
-		for _, d1 := range dates {
-			for _, d2 := range dates {
-				if d1.Equal(d2) {
-					continue
-				}
-				a, b := build(tld, d1, nil), build(tld, d2, nil)
-				if a == nil || b == nil {
-					continue
-				}
-				rep.Evaluations++
-				rep.distinctKey("hist-tld|" + tld + d1.String() + d2.String())
-				base, p0 := lintObj(b.reparse(), g) // B alone (possibly after earlier pairs; compared again below)
-				lintObj(a, g)
-				after, p1 := lintObj(b.reparse(), g)
-				if p0 == "" && p1 == "" {
-					if d, ok := sameResults(base, after); !ok {
-						rep.violate(Violation{"C05", fmt.Sprintf("result for a .%s certificate dated %s changes after linting one dated %s: %s", tld, d2.Format("2006-01-02"), d1.Format("2006-01-02"), d), "history:" + lintNameOf(d), replayOf(b, map[string]interface{}{"first_der_hex": hexs(a.DER), "diff": d})})
-					}
+		// low, high, low again: whatever the first call on the early-dated certificate returned must come back
+		for _, order := range [][3]int{{0, 2, 0}, {2, 0, 2}, {1, 2, 1}, {0, 1, 0}} {
+			objsT := [3]*Obj{build(tld, dates[order[0]], nil), build(tld, dates[order[1]], nil), build(tld, dates[order[2]], nil)}
+			if objsT[0] == nil || objsT[1] == nil || objsT[2] == nil {
+				continue
+			}
+			rep.Evaluations++
+			rep.distinctKey(fmt.Sprintf("hist-tld|%s|%v", tld, order))
+			first, p0 := lintObj(objsT[0], g)
+			lintObj(objsT[1], g)
+			again, p1 := lintObj(objsT[2], g)
+			if p0 == "" && p1 == "" {
+				if d, ok := sameResults(first, again); !ok {
+					rep.violate(Violation{"C05", fmt.Sprintf("result for a .%s certificate dated %s changes after linting one dated %s: %s", tld, dates[order[0]].Format("2006-01-02"), dates[order[1]].Format("2006-01-02"), d),
+						"history:" + lintNameOf(d), replayOf(objsT[0], map[string]interface{}{"then_der_hex": hexs(objsT[1].DER), "diff": d})})
 				}
 			}
 		}
